@@ -1,4 +1,5 @@
 import SoupVerif.Properties.C01Sat
+import SoupVerif.Properties.C01Ns
 open SoupVerif
 
 /-! Main theorems -/
@@ -11,6 +12,9 @@ open SoupVerif
 #print axioms C01Sat.matchEl_eq
 #print axioms C01Sat.select_exact
 #print axioms C01Sat.mem_select_iff
+#print axioms C01Sat.api_select_exact
+#print axioms C01Sat.api_select_exact'
+#print axioms SatRootCond.rootAgrees_of_conditions
 #print axioms C01Sat.doc_object_never_related
 #print axioms C01Sat.sat_child_of_doc
 #print axioms C01Sat.match_child_of_doc
@@ -59,3 +63,9 @@ open SoupVerif
 #print axioms Css.Complex.All.imp
 #print axioms Css.Complex.All.and
 #print axioms Css.Complex.All.of_forall
+
+/-! Default namespace (Properties/C01Ns) -/
+#print axioms C01Ns.satType_implied
+#print axioms C01Ns.complex_ns
+#print axioms C01Ns.satCss_eq_satTop
+#print axioms C01Ns.select_exact_css
